@@ -21,6 +21,14 @@ use serde_json::json;
 use std::collections::BTreeMap;
 use std::panic::{catch_unwind, AssertUnwindSafe};
 
+/// When set, tries, rounds and mutant counts are kept tiny (used for the Miri runs, which are
+/// about four orders of magnitude slower than native execution).
+pub static SMALL: std::sync::atomic::AtomicBool = std::sync::atomic::AtomicBool::new(false);
+
+fn small() -> bool {
+    SMALL.load(std::sync::atomic::Ordering::Relaxed)
+}
+
 fn guard<T>(f: impl FnOnce() -> T) -> Result<T, String> {
     catch_unwind(AssertUnwindSafe(f)).map_err(|e| {
         if let Some(s) = e.downcast_ref::<&str>() {
@@ -52,11 +60,12 @@ fn msg_class(s: &str) -> String {
 
 /// A random trie: sorted (key, value hash) pairs with hostile geometry.
 pub fn gen_items<K: HashKind>(rng: &mut Rng, max: usize) -> Vec<(Key, Hash)> {
+    let max = if small() { max.min(6) } else { max };
     let n = match rng.below(10) {
         0 => 0,
         1 => 1,
         2 => 2,
-        3..=5 => rng.range(3, 24) as usize,
+        3..=5 => rng.range(3, 24.min(max) as u64) as usize,
         _ => rng.range(3, max as u64) as usize,
     };
     let mut set = std::collections::BTreeSet::new();
@@ -72,7 +81,7 @@ pub fn gen_items<K: HashKind>(rng: &mut Rng, max: usize) -> Vec<(Key, Hash)> {
                     let v: Vec<&Key> = set.iter().collect();
                     **rng.pick(&v)
                 };
-                let plen = hostile_prefix_len(rng);
+                let plen = if small() { rng.range(0, 10) as usize } else { hostile_prefix_len(rng) };
                 let m = rng.range(1, 12) as usize;
                 for k in cluster(rng, &base, plen, m) {
                     if set.len() < n {
@@ -192,7 +201,7 @@ pub fn run_c07<K: HashKind>(seed: u64, rep: &mut Rep) {
         "C07",
         json!({"hasher": K::NAME, "seed": seed, "leaves": items.len(), "terminals": all_terms.len(), "root": hex8(&root)}),
     );
-    let rounds = if items.len() < 4 { 3 } else { 12 };
+    let rounds = if small() { 1 } else if items.len() < 4 { 3 } else { 12 };
     for round in 0..rounds {
         rep.op_index = round as u64 + 1;
         // S: subset of terminals
@@ -672,7 +681,7 @@ pub fn run_c08<K: HashKind>(seed: u64, rep: &mut Rep) {
     let items2 = gen_items::<K>(&mut rng, 60);
     let trie2 = RefTrie::build::<K>(&items2);
     rep.sample("C08", json!({"hasher": K::NAME, "seed": seed, "leaves": items.len(), "root": hex8(&root)}));
-    let n_mut = 160;
+    let n_mut = if small() { 3 } else { 160 };
     let mut seen = std::collections::HashSet::new();
     for mi in 0..n_mut {
         rep.op_index = mi as u64 + 1;
@@ -802,7 +811,31 @@ pub fn run_c08<K: HashKind>(seed: u64, rep: &mut Rep) {
         let mut mp = honest_mp.clone();
         let mut mops = Vec::new();
         for _ in 0..rng.range(1, 2) {
-            let op = match rng.below(12) {
+            let op = match rng.below(14) {
+                12 | 13 if mp.paths.iter().any(|p| matches!(p.terminal, PathProofTerminal::Terminator(_))) && !items.is_empty() => {
+                    // re-target a terminator (its node hash stays zero) to the region of an
+                    // existing key, keeping its depth: only the ordering / bisection logic of the
+                    // verifier stands between this and a false non-existence statement.
+                    let cands: Vec<usize> = (0..mp.paths.len())
+                        .filter(|&i| matches!(mp.paths[i].terminal, PathProofTerminal::Terminator(_)))
+                        .collect();
+                    let i = *rng.pick(&cands);
+                    let d = mp.paths[i].depth.clamp(1, 256);
+                    let (k, _) = items[rng.usize_below(items.len())];
+                    let old = match &mp.paths[i].terminal {
+                        PathProofTerminal::Terminator(t) => t.raw_path(),
+                        PathProofTerminal::Leaf(l) => l.key_path,
+                    };
+                    // keep a random-length suffix of the old position (the bits that are tied to
+                    // sibling hashes), take the leading bits from the existing key
+                    let keep_from = rng.usize_below(d);
+                    let mut nk = k;
+                    for b in keep_from..d {
+                        set_bit(&mut nk, b, bit(&old, b));
+                    }
+                    mp.paths[i].terminal = PathProofTerminal::Terminator(position(&nk, d));
+                    "retarget-terminator-to-existing-key"
+                }
                 0..=3 => mutate_siblings(&mut rng, &mut mp.siblings, &donor),
                 4 if !mp.paths.is_empty() => {
                     let i = rng.usize_below(mp.paths.len());
